@@ -421,6 +421,13 @@ func c15Cases(env vk.Env) []vk.Case {
 			nm, part := nm, part
 			cs = append(cs, vk.Case{ID: fmt.Sprintf("refuse/%s/%d", nm, part), Run: func(t *vk.T) { c15Refuse(t, nm, part, 4, env) }})
 		}
+		// thorough: further worlds (other identifiers, keys and objects), each with its own share of the catalogue
+		for w := 1; w < env.Pick(1, 5); w++ {
+			for part := 0; part < 4; part++ {
+				nm, part, w := nm, part, w
+				cs = append(cs, vk.Case{ID: fmt.Sprintf("refuse/%s/world%d/%d", nm, w, part), Run: func(t *vk.T) { c15Refuse(t, nm, part, 4, env) }})
+			}
+		}
 	}
 	return cs
 }
@@ -715,7 +722,7 @@ func c15Refuse(t *vk.T, name string, part, parts int, env vk.Env) {
 	// semantic corruptions
 	vars = append(vars, c15Semantic(name, data, r)...)
 	// seeded random corruptions
-	nr := env.Pick(40, 600)
+	nr := env.Pick(40, 2000)
 	for k := 0; k < nr; k++ {
 		d := append([]byte{}, data...)
 		kind := ""
